@@ -190,6 +190,11 @@ def vacuity_classes(t, cnt):
                 cnt['link to a box page anchor'] += 1
             if tk == 'audio':
                 cnt['audio reference'] += 1
+            ac = t['meta'].get('assets', {}).get(to.rsplit('/', 1)[-1])
+            if ac:
+                cnt['asset reference: ' + ac] += 1
+                if tk in ('audio', 'img') and src.count('/') != to.count('/'):
+                    cnt['asset reference: %s from a page at another depth' % ac.split(':')[0]] += 1
     depth = lambda p: p.count('/')
     if any(len({depth(m) for m in ms}) > 1 for ms in maps_listing.values()):
         cnt['site: one entry listed by map pages at different depths'] += 1
@@ -283,7 +288,17 @@ def vacuity_classes(t, cnt):
         cnt['option ' + o] += 1
 
 
-REQUIRED = ['link other-code page -> main entry', 'link main page -> other-code entry', 'link to an anchor inside an entry page',
+ASSET_CLASSES = ['image: name without extension', 'image: lower-case .png extension', 'image: non-lower-case .png extension',
+                 'image: other extension (.png is appended)', 'image: name with sub-directory, no extension',
+                 'image: name with sub-directory, non-lower-case .png extension',
+                 'audio: existing file, lower-case .wav', 'audio: delays, lower-case .wav', 'audio: delays, leading /, lower-case .wav',
+                 'audio: alternative format exists', 'audio: delays, non-lower-case .wav', 'audio: delays, leading /, non-lower-case .wav',
+                 'audio: delays, sub-directory', 'audio: delays, sub-directory, non-lower-case .wav',
+                 'audio: existing file, non-lower-case .wav', 'audio: delays, no .wav extension, existing file',
+                 'audio: existing file, no .wav extension', 'audio: alternative format exists, non-lower-case .wav named',
+                 'image from a page at another depth', 'audio from a page at another depth']
+
+REQUIRED = ['asset reference: ' + c for c in ASSET_CLASSES] + ['link other-code page -> main entry', 'link main page -> other-code entry', 'link to an anchor inside an entry page',
             'link to an anchor on a single page', 'link to a map row anchor', 'link to a box page anchor', 'audio reference',
             'site: one entry listed by map pages at different depths', 'site: one image referenced from pages at different depths',
             'site: css/js referenced from three depths', 'site: single page', 'site: page per entry',
